@@ -432,7 +432,8 @@ def _copy_features(f):
     with guards.in_function(f, abstract=True):
         for bid, b in f.blocks.items():
             t = b.get('term')
-            if t and ('fullcond' in t or 'cond' in t) and t['kind'] in ('IfStmt', 'WhileStmt', 'ForStmt', 'DoStmt'):
+            # loop statements are left out: `while (n--)` and `for (i = 0; i < n; i++)` are the same loop
+            if t and ('fullcond' in t or 'cond' in t) and t['kind'] == 'IfStmt':
                 conds[t['kind'] + ' ' + _norm_digits(guards.canon(guards.expand(f, t.get('fullcond') or t.get('cond'), bid)))] += 1
         for b, i, ev in f.events(('call',)):
             fn = ev['e'].get('fn') or (ev['e'].get('callee') or {}).get('f') or '?'
@@ -550,7 +551,7 @@ def _arch_features(f):
     with guards.in_function(f, abstract=True):
         for bid, b in f.blocks.items():
             t = b.get('term')
-            if t and ('fullcond' in t or 'cond' in t) and t['kind'] in ('IfStmt', 'WhileStmt', 'ForStmt', 'DoStmt'):
+            if t and ('fullcond' in t or 'cond' in t) and t['kind'] == 'IfStmt':
                 conds[t['kind'] + ' ' + _norm_digits(guards.canon(guards.expand(f, t.get('fullcond') or t.get('cond'), bid)))] += 1
         for b, i, ev in f.events(('call',)):
             fn = ev['e'].get('fn') or (ev['e'].get('callee') or {}).get('f') or '?'
